@@ -107,9 +107,13 @@ func openFile() (*hEnv, error) {
 	path := filepath.Join(dir, "db.bson")
 	h := &hEnv{cleanup: func() { _ = os.RemoveAll(dir) }}
 	opts := lungo.Options{ExpireInterval: 24 * time.Hour}
+	// one store value for the whole life of the environment: reopening loads
+	// through the object that stored before (anything it keeps between loads
+	// must not leak into the next one)
+	fstore := lungo.NewFileStore(path, 0o644)
 	open := func() error {
 		o := opts
-		o.Store = lungo.NewFileStore(path, 0o644)
+		o.Store = fstore
 		client, engine, err := lungo.Open(context.Background(), o)
 		if err != nil {
 			return err
